@@ -9,7 +9,7 @@ trio_allele_log_pmf, and with inferred roles in trio_valid / duo_valid, whose re
 Not decided: that the pmf sums to one; the iff with validity over all inputs."""
 from __future__ import annotations
 import ast
-from ..terms import walk, show, simplify, alpha, path, positive, mkcall, mkcmp, mkphi
+from ..terms import walk, show, simplify, alpha, path, positive, mkcall, mkcmp, mkphi, mkbin
 from ..kernels import kwargs, storage_root, collapse
 
 PRI = 'mchap.pedigree.prior.'
@@ -247,6 +247,12 @@ def _allele_sources(parts, side):
     return G, K, A
 
 
+def _origin_weight(side):
+    tau = ('param', 'tau_' + side)
+    ratio = mkbin('Div', mkbin('Mult', ('const', 2), tau), mkbin('Add', ('param', 'tau_p'), ('param', 'tau_q')))
+    return mkphi(mkcmp('Gt', tau, ('const', 0)), ('call', 'numpy.log', (ratio,), (), None), ('un', 'USub', ('name', 'numpy.inf')))
+
+
 def rule_allele_mixture(ctx, rule='R18.6'):
     """trio_allele_log_pmf: each accumulated component is add_log_prob(G_q + K_p + A_p, G_p + K_q + A_q) + W_p + W_q where the
     three factors of a parent come from that parent's gamete pmfs (weight lcorrect) or from the unknown-origin prior (weight lerror)"""
@@ -286,6 +292,13 @@ def rule_allele_mixture(ctx, rule='R18.6'):
                 want = 'lcorrect' if Gc[0] == 'C' else 'lerror'
                 if weights[side] != [want]:
                     bad.append(f"parent {side}: source {'gamete pmf' if Gc[0] == 'C' else 'unknown origin'} but weight {weights[side]}")
+            # origin weight: the resampled copy lies in the gamete of parent s with probability tau_s / (tau_p + tau_q); the sum for
+            # that origin carries log(2 tau_s / (tau_p + tau_q)) (zero for balanced gametes, -inf when that gamete is empty) and
+            # nothing of the other parent's weight.  Without it the Gibbs conditional is wrong for unbalanced gametes (defect G).
+            for side, own in (('p', A_), ('q', B_)):
+                other = 'q' if side == 'p' else 'p'
+                if _origin_weight(side) not in own or _origin_weight(other) in own:
+                    bad.append(f"the sum for origin {side} does not carry exactly the weight log(2*tau_{side}/(tau_p + tau_q)) of that origin")
             if not bad:
                 key = kinds['p'] + kinds['q']
         elif not inner:
